@@ -227,12 +227,18 @@ mod zeta;
 mod ziggurat_tables;
 mod zipf;
 
-/// Verification hooks (only with `--cfg rand_distr_verif`): read-only re-export of the private
+/// Verification hooks (only with `--cfg rand_distr_verif`): read-only access to the private
 /// ziggurat tables, so that an external harness can check their defining equations.
 #[cfg(rand_distr_verif)]
 #[doc(hidden)]
 pub mod verif_hooks {
-    pub use crate::ziggurat_tables::{
-        ZIG_EXP_F, ZIG_EXP_R, ZIG_EXP_X, ZIG_NORM_F, ZIG_NORM_R, ZIG_NORM_X,
-    };
+    use crate::ziggurat_tables as t;
+    /// `(ZIG_NORM_R, ZIG_NORM_X, ZIG_NORM_F)`
+    pub fn zig_norm() -> (f64, &'static [f64; 257], &'static [f64; 257]) {
+        (t::ZIG_NORM_R, &t::ZIG_NORM_X, &t::ZIG_NORM_F)
+    }
+    /// `(ZIG_EXP_R, ZIG_EXP_X, ZIG_EXP_F)`
+    pub fn zig_exp() -> (f64, &'static [f64; 257], &'static [f64; 257]) {
+        (t::ZIG_EXP_R, &t::ZIG_EXP_X, &t::ZIG_EXP_F)
+    }
 }
